@@ -235,6 +235,8 @@ def run_case(c):
             if op["op"] == "recreate":
                 k += 1
                 S2 = make_space(m, "R%d" % k, globs)
+                if not is_lambda:
+                    st["defpos"] = def_positions(before)
                 c2 = S2.new_cells(name=cells.name if is_lambda else None, formula=before)
                 st["snap"] = snapshot(c2, argsets)
             elif op["op"] == "rename":
